@@ -10,7 +10,8 @@ Model of the interpolation / insertion code of py-pde:
 * `interp1/2/3`             - `make_single_interpolator` (grids.py:193-349), 1/2/3 axes
 * `insertInterp`            - interpreted `DataFieldBase.insert` (pde/fields/datafield_base.py:735-788),
                               written for any number of axes like the code (`np.ndindex(2,...,2)`)
-* `insertComp1/2/3`         - `NumbaBackend.make_inserter` (pde/backends/numba/backend.py:990-1156)
+* `insertComp1/2/3`         - `NumbaBackend.make_inserter` (pde/backends/numba/backend.py), incl. the
+                              ghost-cell variant whose volume lookup is shifted and clamped (`volIdx`)
 * `integral`                - `GridBase.integrate`: `(data * cell_volumes).sum()`
 
 Cell volumes enter as a function `vol : Idx → K`, so every grid class is covered (Cartesian:
@@ -196,22 +197,33 @@ def insertInterp [DecidableEq K] (axes : List (Axis K)) (vol data : Idx → K) (
 
 /-! ### compiled inserter (`NumbaBackend.make_inserter`), 1/2/3 axes; `none` = `DomainError` -/
 
+/-- index used for the cell-volume lookup: with ghost cells the indices refer to the padded array
+while volumes exist for valid cells only, so the code looks up `min(max(i - 1, 0), size - 1)`
+(a ghost cell uses the volume of the adjacent valid cell); without ghost cells the index itself -/
+def volIdx (ghost : Bool) (size i : Int) : Int :=
+  if ghost then
+    let j := if i - 1 < 0 then 0 else i - 1      -- max(i - 1, 0)
+    if size - 1 < j then size - 1 else j          -- min(., size - 1)
+  else i
+
 def insertComp1 (eps : K) (ghost : Bool) (ax : Axis K) (vol data : Idx → K) (px amount : K) :
     Option (Idx → K) :=
   match axisData eps ghost false ax px with
   | none => none
   | some a =>
-    let d := deposit data [a.li] (a.wl * amount / vol [a.li])
-    some (deposit d [a.hi] (a.wh * amount / vol [a.hi]))
+    let v := fun i => vol [volIdx ghost ax.size i]
+    let d := deposit data [a.li] (a.wl * amount / v a.li)
+    some (deposit d [a.hi] (a.wh * amount / v a.hi))
 
 def insertComp2 (eps : K) (ghost : Bool) (ax ay : Axis K) (vol data : Idx → K)
     (px py amount : K) : Option (Idx → K) :=
   match axisData eps ghost false ax px, axisData eps ghost false ay py with
   | some a, some b =>
-    let d := deposit data [a.li, b.li] (a.wl * b.wl * amount / vol [a.li, b.li])
-    let d := deposit d [a.li, b.hi] (a.wl * b.wh * amount / vol [a.li, b.hi])
-    let d := deposit d [a.hi, b.li] (a.wh * b.wl * amount / vol [a.hi, b.li])
-    some (deposit d [a.hi, b.hi] (a.wh * b.wh * amount / vol [a.hi, b.hi]))
+    let v := fun i j => vol [volIdx ghost ax.size i, volIdx ghost ay.size j]
+    let d := deposit data [a.li, b.li] (a.wl * b.wl * amount / v a.li b.li)
+    let d := deposit d [a.li, b.hi] (a.wl * b.wh * amount / v a.li b.hi)
+    let d := deposit d [a.hi, b.li] (a.wh * b.wl * amount / v a.hi b.li)
+    some (deposit d [a.hi, b.hi] (a.wh * b.wh * amount / v a.hi b.hi))
   | _, _ => none
 
 def insertComp3 (eps : K) (ghost : Bool) (ax ay az : Axis K) (vol data : Idx → K)
@@ -219,14 +231,16 @@ def insertComp3 (eps : K) (ghost : Bool) (ax ay az : Axis K) (vol data : Idx →
   match axisData eps ghost false ax px, axisData eps ghost false ay py,
       axisData eps ghost false az pz with
   | some a, some b, some c =>
-    let d := deposit data [a.li, b.li, c.li] (a.wl * b.wl * c.wl * amount / vol [a.li, b.li, c.li])
-    let d := deposit d [a.li, b.li, c.hi] (a.wl * b.wl * c.wh * amount / vol [a.li, b.li, c.hi])
-    let d := deposit d [a.li, b.hi, c.li] (a.wl * b.wh * c.wl * amount / vol [a.li, b.hi, c.li])
-    let d := deposit d [a.li, b.hi, c.hi] (a.wl * b.wh * c.wh * amount / vol [a.li, b.hi, c.hi])
-    let d := deposit d [a.hi, b.li, c.li] (a.wh * b.wl * c.wl * amount / vol [a.hi, b.li, c.li])
-    let d := deposit d [a.hi, b.li, c.hi] (a.wh * b.wl * c.wh * amount / vol [a.hi, b.li, c.hi])
-    let d := deposit d [a.hi, b.hi, c.li] (a.wh * b.wh * c.wl * amount / vol [a.hi, b.hi, c.li])
-    some (deposit d [a.hi, b.hi, c.hi] (a.wh * b.wh * c.wh * amount / vol [a.hi, b.hi, c.hi]))
+    let v := fun i j k =>
+      vol [volIdx ghost ax.size i, volIdx ghost ay.size j, volIdx ghost az.size k]
+    let d := deposit data [a.li, b.li, c.li] (a.wl * b.wl * c.wl * amount / v a.li b.li c.li)
+    let d := deposit d [a.li, b.li, c.hi] (a.wl * b.wl * c.wh * amount / v a.li b.li c.hi)
+    let d := deposit d [a.li, b.hi, c.li] (a.wl * b.wh * c.wl * amount / v a.li b.hi c.li)
+    let d := deposit d [a.li, b.hi, c.hi] (a.wl * b.wh * c.wh * amount / v a.li b.hi c.hi)
+    let d := deposit d [a.hi, b.li, c.li] (a.wh * b.wl * c.wl * amount / v a.hi b.li c.li)
+    let d := deposit d [a.hi, b.li, c.hi] (a.wh * b.wl * c.wh * amount / v a.hi b.li c.hi)
+    let d := deposit d [a.hi, b.hi, c.li] (a.wh * b.wh * c.wl * amount / v a.hi b.hi c.li)
+    some (deposit d [a.hi, b.hi, c.hi] (a.wh * b.wh * c.wh * amount / v a.hi b.hi c.hi))
   | _, _, _ => none
 
 /-- dispatch on the number of axes as `make_inserter` does -/
